@@ -24,7 +24,7 @@ LEVEL = 'other'
 
 BACKENDS = {'VirtualFileSystem': '_mapping', 'ZipFileSystem': '_name_to_info', 'VPKFileSystem': '_name_to_file'}
 # zip archives store member names with forward slashes only (zipfile normalises them): ZipInfo.filename is SLASHED by definition
-ATTR_FORMS = {'info.filename': frozenset({SLASHED})}
+ATTR_FORMS: dict = {}      # per index comprehension: `<var>.filename` is SLASHED when <var> iterates ZipFile.infolist() (zip member names use forward slashes)
 
 
 def run(ctx: Any, prog: Program) -> None:
@@ -51,7 +51,9 @@ def run(ctx: Any, prog: Program) -> None:
             if isinstance(n, (ast.Assign, ast.AnnAssign)) and isinstance(n.value, ast.DictComp):
                 tgt = n.targets[0] if isinstance(n, ast.Assign) else n.target
                 if dotted(tgt) == f'self.{index}':
-                    key_form = FormEnv(init, call_forms=call_forms, attr_forms=ATTR_FORMS).form(n.value.key)
+                    attr_forms = {f'{g.target.id}.filename': frozenset({SLASHED}) for g in n.value.generators
+                                  if isinstance(g.target, ast.Name) and isinstance(g.iter, ast.Call) and isinstance(g.iter.func, ast.Attribute) and g.iter.func.attr == 'infolist'}
+                    key_form = FormEnv(init, call_forms=call_forms, attr_forms=attr_forms).form(n.value.key)
                     key_expr = n.value.key
         if key_form is None:
             raise AnalysisError(f'{cls}.__init__: index {index} is not built by a dict comprehension')
@@ -140,7 +142,8 @@ def run(ctx: Any, prog: Program) -> None:
             raise AnalysisError(f'{cls}.walk_folder: expected one `yield File(...)`')
         parg = ys[0].value.args[1]
         psrc = U(parg)
-        ok = psrc in ('filename', 'fileinfo.filename', 'file.filename', 'key') or psrc.endswith('.filename')
+        loop_vars = {x.id for l in walk_no_nested(wf) if isinstance(l, ast.For) and f'self.{index}' in U(l.iter) for x in ast.walk(l.target) if isinstance(x, ast.Name)}
+        ok = (isinstance(parg, ast.Name) and parg.id in loop_vars) or (isinstance(parg, ast.Attribute) and parg.attr == 'filename' and isinstance(parg.value, ast.Name) and parg.value.id in loop_vars)
         ctx.check('C19.H3', ok, fs, ys[0], f'{cls}.walk_folder yields File(path={psrc}); it must be the stored file name (which the lookup normalises) or its key', func=f'{cls}.walk_folder', text=f'{cls}.walk_folder yields stored name')
     # ---- H4 ----------------------------------------------------------------------------------------------------
     ch = fs.methods('FileSystemChain')
@@ -151,10 +154,19 @@ def run(ctx: Any, prog: Program) -> None:
     ctx.shape('C19.H4', ok, fs, gf, 'FileSystemChain._get_file must try self.systems in list order and return on the first member that has the file', func='FileSystemChain._get_file', text='first hit in list order')
     # how the prefix is put in front of the name: os.path.join keeps exactly one separator whatever the spelling of the prefix ('addon',
     # 'addon/'); gluing with a literal '/' doubles it for 'addon/', and the zip / VPK members look names up verbatim
-    joins = [c for c in ast.walk(gf) if isinstance(c, ast.Call) and dotted(c.func) == 'os.path.join' and [dotted(a) for a in c.args] == ['prefix', 'name']]
-    glued = [j for j in ast.walk(gf) if isinstance(j, ast.JoinedStr) and any(isinstance(v, ast.FormattedValue) and dotted(v.value) == 'prefix' for v in j.values)
-             and any(isinstance(v, ast.FormattedValue) and dotted(v.value) == 'name' for v in j.values)] + \
-            [b for b in ast.walk(gf) if isinstance(b, ast.BinOp) and isinstance(b.op, ast.Add) and 'prefix' in U(b) and 'name' in U(b) and "'/'" in U(b)]
+    def member_loop_vars(fn_: ast.AST) -> tuple:
+        # `for <member>, <prefix> in self.systems` - whatever the two are called
+        for l_ in walk_no_nested(fn_):
+            if isinstance(l_, ast.For) and dotted(l_.iter) == 'self.systems' and isinstance(l_.target, ast.Tuple) and len(l_.target.elts) == 2 and all(isinstance(e, ast.Name) for e in l_.target.elts):
+                return l_.target.elts[0].id, l_.target.elts[1].id
+        return 'sys', 'prefix'
+    _, gpref = member_loop_vars(gf)
+    gname = gf.args.args[1].arg if len(gf.args.args) > 1 else 'name'
+    names_of = lambda e: {x.id for x in ast.walk(e) if isinstance(x, ast.Name)}
+    joins = [c for c in ast.walk(gf) if isinstance(c, ast.Call) and dotted(c.func) == 'os.path.join' and [dotted(a) for a in c.args] == [gpref, gname]]
+    glued = [j for j in ast.walk(gf) if isinstance(j, ast.JoinedStr) and any(isinstance(v, ast.FormattedValue) and dotted(v.value) == gpref for v in j.values)
+             and any(isinstance(v, ast.FormattedValue) and dotted(v.value) == gname for v in j.values)] + \
+            [b for b in ast.walk(gf) if isinstance(b, ast.BinOp) and isinstance(b.op, ast.Add) and gpref in names_of(b) and gname in names_of(b) and "'/'" in U(b)]
     if joins:
         ctx.check('C19.H4', True, fs, joins[0], 'os.path.join(prefix, name)', func='FileSystemChain._get_file', text='prefix joined on lookup')
     elif glued:
@@ -229,10 +241,12 @@ def run(ctx: Any, prog: Program) -> None:
                   'exact-case names, so a member restricted to `Materials` no longer yields anything', func='FileSystemChain.add_sys', text='prefix stored as given')
     wr = ch['walk_folder_repeat']
     src = U(wr)
-    ctx.shape('C19.H4', 'os.path.join(prefix, folder)' in src, fs, wr, 'walk must address a prefixed member inside its prefix', func='FileSystemChain.walk_folder_repeat', text='prefix joined on walk')
+    _, wpref = member_loop_vars(wr)
+    wfolder = wr.args.args[1].arg if len(wr.args.args) > 1 else 'folder'
+    ctx.shape('C19.H4', any(isinstance(c, ast.Call) and dotted(c.func) == 'os.path.join' and [dotted(a) for a in c.args] == [wpref, wfolder] for c in ast.walk(wr)), fs, wr, 'walk must address a prefixed member inside its prefix', func='FileSystemChain.walk_folder_repeat', text='prefix joined on walk')
     # ... and report names relative to it.  The members match folder names case-insensitively, so the files found may spell the prefix
     # differently from the chain: os.path.relpath() compares case-sensitively and then answers `../Materials/x` for prefix `materials`.
-    rels = [c for c in ast.walk(wr) if isinstance(c, ast.Call) and dotted(c.func) == 'os.path.relpath' and len(c.args) == 2 and dotted(c.args[1]) == 'prefix']
+    rels = [c for c in ast.walk(wr) if isinstance(c, ast.Call) and dotted(c.func) == 'os.path.relpath' and len(c.args) == 2 and dotted(c.args[1]) == wpref]
     # locals derived from the member prefix (norm_prefix, and anything computed from it)
     pref_defs: Dict[str, ast.AST] = {}
     grew = True
@@ -240,20 +254,20 @@ def run(ctx: Any, prog: Program) -> None:
         grew = False
         for a_ in ast.walk(wr):
             if isinstance(a_, ast.Assign) and isinstance(a_.targets[0], ast.Name) and a_.targets[0].id not in pref_defs \
-                    and any(isinstance(x, ast.Name) and (x.id == 'prefix' or x.id in pref_defs) for x in ast.walk(a_.value)):
+                    and any(isinstance(x, ast.Name) and (x.id == wpref or x.id in pref_defs) for x in ast.walk(a_.value)):
                 pref_defs[a_.targets[0].id] = a_.value
                 grew = True
 
     def folds(e: ast.AST, depth: int = 0) -> int:
         n_ = U(e).count('casefold()')
         if prefix_folded_at_store and depth == 0:
-            n_ += sum(1 for x in ast.walk(e) if isinstance(x, ast.Name) and x.id == 'prefix')
+            n_ += sum(1 for x in ast.walk(e) if isinstance(x, ast.Name) and x.id == wpref)
         if depth < 4:
             for x in ast.walk(e):
                 if isinstance(x, ast.Name) and x.id in pref_defs:
                     n_ += folds(pref_defs[x.id], depth + 1)
         return n_
-    folded_strip = any(isinstance(c, ast.Compare) and isinstance(c.ops[0], ast.Eq) and folds(c) >= 2 and any(isinstance(x, ast.Name) and (x.id == 'prefix' or x.id in pref_defs) for x in ast.walk(c))
+    folded_strip = any(isinstance(c, ast.Compare) and isinstance(c.ops[0], ast.Eq) and folds(c) >= 2 and any(isinstance(x, ast.Name) and (x.id == wpref or x.id in pref_defs) for x in ast.walk(c))
                        for c in ast.walk(wr))
     if not rels and not folded_strip:
         ctx.shape('C19.H4', False, fs, wr, 'how walk_folder_repeat removes the member prefix from the names it reports was not recognised', func='FileSystemChain.walk_folder_repeat', text='prefix stripped on walk')
@@ -270,7 +284,7 @@ def run(ctx: Any, prog: Program) -> None:
         ctx.check('C19.H4', not bad_rel, fs, bad_rel[0] if bad_rel else wr, 'FileSystemChain.walk_folder_repeat strips the member prefix with os.path.relpath(), which compares case-sensitively: a member that stores `Materials/dev/a.vmt` '
                   'under the chain prefix `materials` is reported as `../Materials/dev/a.vmt` instead of `dev/a.vmt` (and is not de-duplicated against the same name from another member)', func='FileSystemChain.walk_folder_repeat',
                   text='prefix stripped case-insensitively on walk')
-    ctx.shape('C19.H4', 'for sys, prefix in self.systems' in src, fs, wr, 'walk must visit members in priority order', func='FileSystemChain.walk_folder_repeat', text='walk in list order')
+    ctx.shape('C19.H4', any(isinstance(l_, ast.For) and dotted(l_.iter) == 'self.systems' for l_ in walk_no_nested(wr)), fs, wr, 'walk must visit members in priority order', func='FileSystemChain.walk_folder_repeat', text='walk in list order')
     wf = ch['walk_folder']
     src = U(wf)
     adds = [c for c in ast.walk(wf) if isinstance(c, ast.Call) and isinstance(c.func, ast.Attribute) and c.func.attr == 'add' and c.args and isinstance(c.args[0], ast.Name)]
